@@ -33,6 +33,9 @@ def field_attr_variants(rnd):
     rv = lambda: pool.pop()
     out = [
         ("none", [], "i32"),
+        # field types that carry no data: serde writes their key all the same (null)
+        ("type-PhantomData", [], "std::marker::PhantomData<u8>"),
+        ("type-unit", [], "()"),
         ("rename", None, "i32"),
         ("skip", ["#[serde(skip)]"], "i32"),
         ("skip_serializing_if", ['#[serde(skip_serializing_if = "Option::is_none")]'], "Option<i32>"),
@@ -188,7 +191,7 @@ def oracle_program(types):
         if t["kind"] == "struct":
             inits = []
             for k, (ident, label, attrs, ty) in enumerate(t["items"]):
-                inits.append("%s: %s" % (ident, "Some(%d)" % k if ty.startswith("Option") else "%d" % k))
+                inits.append("%s: %s" % (ident, "Some(%d)" % k if ty.startswith("Option") else "std::marker::PhantomData" if "PhantomData" in ty else "()" if ty == "()" else "%d" % k))
             src.append("    println!(\"%s\\t{}\", serde_json::to_string(&%s { %s }).unwrap());\n" % (t["name"], t["name"], ", ".join(inits)))
         else:
             vs = ", ".join("%s::%s" % (t["name"], ident) for (ident, _, _, _) in t["items"])
